@@ -972,6 +972,183 @@ fn scenarios() -> Vec<Vec<Op>> {
     out
 }
 
+// ------------------------------------------------------------------ digest mode (C17: differential runs)
+/// Plain interpreter without oracles: applies the operations through the public API and records what
+/// every call returned.  The transcript (results + Debug rendering of the final arena, which covers the
+/// slots, the generation stamps and both ends of the free list) is what two builds of the crate with
+/// different cargo features are compared on.
+fn transcript(ops: &[Op]) -> String {
+    let mut out = String::new();
+    let mut arena: Arena<u32> = Arena::new();
+    let mut ids: Vec<NodeId> = vec![];
+    let r = catch_unwind(AssertUnwindSafe(|| {
+        for op in ops {
+            // an id whose slot has been recycled for another node is not a valid argument any more
+            let stale = |arena: &Arena<u32>, id: NodeId| {
+                let pos = NonZeroUsize::new(usize::from(id)).unwrap();
+                matches!(arena.get_node_id_at(pos), Some(cur) if cur != id)
+            };
+            let ok = |x: usize| x < ids.len() && !stale(&arena, ids[x]);
+            match op {
+                Op::New => {
+                    let id = arena.new_node(ids.len() as u32);
+                    ids.push(id);
+                    out.push_str(&format!("{:?};", id));
+                }
+                Op::AppendValue(p) => {
+                    if !ok(*p) || ids[*p].is_removed(&arena) {
+                        continue;
+                    }
+                    let id = ids[*p].append_value(ids.len() as u32, &mut arena);
+                    ids.push(id);
+                    out.push_str(&format!("{:?};", id));
+                }
+                Op::Checked(k, a, b) | Op::Unchecked(k, a, b) => {
+                    if !ok(*a) || !ok(*b) {
+                        continue;
+                    }
+                    let (t, m) = (ids[*a], ids[*b]);
+                    let r = match k {
+                        Ins::Append => t.checked_append(m, &mut arena),
+                        Ins::Prepend => t.checked_prepend(m, &mut arena),
+                        Ins::After => t.checked_insert_after(m, &mut arena),
+                        Ins::Before => t.checked_insert_before(m, &mut arena),
+                    };
+                    out.push_str(&format!("{:?};", r));
+                }
+                Op::Detach(x) => {
+                    if ok(*x) {
+                        ids[*x].detach(&mut arena);
+                    }
+                }
+                Op::Remove(x) => {
+                    if ok(*x) && !ids[*x].is_removed(&arena) {
+                        ids[*x].remove(&mut arena);
+                    }
+                }
+                Op::RemoveSubtree(x) => {
+                    if ok(*x) && !ids[*x].is_removed(&arena) {
+                        ids[*x].remove_subtree(&mut arena);
+                    }
+                }
+                Op::Clear => {
+                    arena.clear();
+                    ids.clear();
+                }
+                Op::Cycle(x, n) => {
+                    if !ok(*x) {
+                        continue;
+                    }
+                    let mut cur = ids[*x];
+                    for _ in 0..(*n).min(40) {
+                        if cur.is_removed(&arena) {
+                            break;
+                        }
+                        cur.remove(&mut arena);
+                        cur = arena.new_node(7);
+                    }
+                    ids.push(cur);
+                }
+            }
+            // what a client can observe after the call
+            for id in &ids {
+                if !id.is_removed(&arena) {
+                    out.push_str(&format!("{}:", usize::from(*id)));
+                    for e in id.traverse(&arena).take(200) {
+                        match e {
+                            NodeEdge::Start(n) => out.push_str(&format!("<{}", usize::from(n))),
+                            NodeEdge::End(n) => out.push_str(&format!(">{}", usize::from(n))),
+                        }
+                    }
+                    out.push(',');
+                }
+            }
+            out.push('|');
+        }
+    }));
+    if r.is_err() {
+        out.push_str("PANIC");
+    }
+    out.push_str(&format!("{:?}", arena));
+    out
+}
+
+fn fnv(s: &str) -> u64 {
+    let mut h: u64 = 0xcbf29ce484222325;
+    for b in s.bytes() {
+        h ^= b as u64;
+        h = h.wrapping_mul(0x100000001b3);
+    }
+    h
+}
+
+/// deterministic family of sequences for the differential run
+fn digest_sequences(seed: u64, nrandom: usize) -> Vec<Vec<Op>> {
+    let kinds = [Ins::Append, Ins::Prepend, Ins::After, Ins::Before];
+    let mut out: Vec<Vec<Op>> = vec![];
+    for (m, d) in [(2usize, 3usize), (3, 2)] {
+        let mut alphabet: Vec<Op> = vec![];
+        for a in 0..m {
+            for b in 0..m {
+                for k in kinds {
+                    alphabet.push(Op::Checked(k, a, b));
+                }
+            }
+            alphabet.push(Op::Detach(a));
+            alphabet.push(Op::Remove(a));
+            alphabet.push(Op::RemoveSubtree(a));
+        }
+        let mut idx = vec![0usize; d];
+        'outer: loop {
+            let mut ops: Vec<Op> = (0..m).map(|_| Op::New).collect();
+            for &i in &idx {
+                ops.push(alphabet[i].clone());
+            }
+            ops.push(Op::New);
+            ops.push(Op::New);
+            out.push(ops);
+            let mut k = d;
+            loop {
+                if k == 0 {
+                    break 'outer;
+                }
+                k -= 1;
+                idx[k] += 1;
+                if idx[k] < alphabet.len() {
+                    break;
+                }
+                idx[k] = 0;
+            }
+        }
+    }
+    for sc in scenarios() {
+        out.push(sc);
+    }
+    let shapes = [
+        "new;new;new;new;new;new; checked_append 0 1; checked_append 1 2; checked_append 1 3; checked_append 0 4; checked_append 4 5",
+        "new;new;new;new;new;new;new; checked_append 0 1; checked_append 0 2; checked_append 0 3; checked_append 2 4; checked_append 2 5; checked_append 5 6",
+        "new;new;new;new;new; checked_insert_after 0 1; checked_insert_after 1 2; checked_append 1 3; checked_append 1 4",
+    ];
+    let mut r = Rng(0x9E3779B97F4A7C15 ^ seed.wrapping_mul(0x2545F4914F6CDD1D));
+    for i in 0..nrandom {
+        let mut ops = if i % 2 == 0 { parse_ops(shapes[(i / 2) % shapes.len()]) } else { vec![Op::New, Op::New] };
+        let mut n = ops.iter().filter(|o| matches!(o, Op::New)).count();
+        let len = 6 + r.below(14);
+        for _ in 0..len {
+            let op = random_op(&mut r, n.min(9));
+            if matches!(op, Op::New | Op::AppendValue(_)) {
+                n += 1;
+            }
+            ops.push(op);
+        }
+        ops.push(Op::New);
+        ops.push(Op::New);
+        ops.push(Op::New);
+        out.push(ops);
+    }
+    out
+}
+
 fn main() {
     std::panic::set_hook(Box::new(|_| {}));
     let args: Vec<String> = std::env::args().collect();
@@ -1007,6 +1184,20 @@ fn main() {
             }
         }
     };
+    if args.len() >= 2 && args[1] == "digest" {
+        // one line per sequence: <fnv hash of the transcript> <ops>
+        let seed: u64 = args.get(2).and_then(|s| s.parse().ok()).unwrap_or(1);
+        let nrandom: usize = args.get(3).and_then(|s| s.parse().ok()).unwrap_or(4000);
+        for ops in digest_sequences(seed, nrandom) {
+            let seq: Vec<String> = ops.iter().map(op_str).collect();
+            println!("{:016x} {}", fnv(&transcript(&ops)), seq.join("; "));
+        }
+        return;
+    }
+    if args.len() >= 3 && args[1] == "transcript" {
+        println!("{}", transcript(&parse_ops(&args[2])));
+        return;
+    }
     if args.len() >= 3 && args[1] == "replay" {
         let ops = parse_ops(&args[2]);
         let o = run_seq(&ops, &heartbeat, true, &found.keys().cloned().collect());
